@@ -755,6 +755,10 @@ def check(pid, argv=None):
         handlemc.replay_one(run, json.load(open(run.replay))["replay"])
         run.cov["traces_validated_against_impl"] = 1
         run.finish()
+    if run.replay and "world" in json.load(open(run.replay))["replay"] and pid == "C08":
+        from . import capi
+        capi.refs_part(run)
+        run.finish()
     if run.replay:
         g = json.load(open(run.replay))["replay"]["gen"]
         if g.get("kind") == "model":
@@ -783,6 +787,11 @@ def check(pid, argv=None):
             t1 = time.time()
             handlemc.model_level(run)
             run.notes["t_handle_model"] = round(time.time() - t1, 1)
+        if pid == "C08":
+            from . import capi
+            t1 = time.time()
+            capi.refs_part(run)
+            run.notes["t_c_accessors_of_references"] = round(time.time() - t1, 1)
         if pid == "C09":
             hybrid_copies(run)
             # the handle-cache model (spec/XoHandle.tla) for histories with copy-constructed handles: a write to either side of
